@@ -106,7 +106,39 @@ def request_accessor_decodes(proj, func, e: ast.Attribute) -> int:
                 counts.add(sum(1 for c in walk(r.value) if isinstance(c, ast.Call) and (dotted(c.func) or "").split(".")[-1] in ("unquote", "unquote_plus")))
     if not counts:
         return 0
-    return counts.pop() if len(counts) == 1 else -1
+    k = counts.pop() if len(counts) == 1 else -1
+    if k >= 0:
+        k += _parsed_field_decodes(proj, e.attr)
+    return k
+
+
+def _parsed_field_decodes(proj, field: str) -> int:
+    """Percent-decodings parse_url applies to the ParsedURL field of that name
+    (normally none: the parsed components are the raw, still escaped ones)."""
+    try:
+        fi = proj.func("utils.url:parse_url")
+    except Exception:  # noqa: BLE001
+        return 0
+    best = 0
+    for c in calls(fi.node):
+        if (dotted(c.func) or "").split(".")[-1] != "ParsedURL":
+            continue
+        v = next((k.value for k in c.keywords if k.arg == field), None)
+        if v is None:
+            continue
+
+        def count(e, depth=0):
+            if depth > 4:
+                return 0
+            n = sum(1 for x in walk(e) if isinstance(x, ast.Call) and (dotted(x.func) or "").split(".")[-1] in ("unquote", "unquote_plus"))
+            for nm in [x for x in walk(e) if isinstance(x, ast.Name)]:
+                ds = [st.value for st in walk(fi.node) if isinstance(st, ast.Assign) and any(isinstance(t, ast.Name) and t.id == nm.id for t in st.targets)]
+                if ds:
+                    n += max(count(d, depth + 1) for d in ds)
+            return n
+
+        best = max(best, count(v))
+    return best
 
 
 def alias_map(fn: ast.AST) -> dict[str, str]:
